@@ -223,10 +223,13 @@ CHECKS = {
         'case (TableSym lifting: z3 decides which spellings reach which result): every member of a documented group — the tables of the statement plus the multi-name rows of '
         'docs/usage.md — yields one value; (lexer_words) the real Lexer::next_lexem on every operator / arithmetic / keyword word in four letter cases, in context: lexed as the kind '
         'of its group; (lexer_pairs) pairs of spellings of one query (round vs curly brackets, one argument vs shell words, upper case, explicit asc): identical lexem sequences; '
+        '(lexer_splits) eight queries (several roots, root options, functions, ORDER BY lists) as one argument and split into shell words at every subset of their whitespace '
+        'positions — the subset is a solver bit-vector — are lexed identically; '
         '(parse_pairs) the real Parser::parse on pairs of lexem vectors (optional select, commas, bracket kind, letter case of `group`, option aliases, operator aliases, '
         '`not like` vs `notlike`): structurally equal queries.',
    note=TRUST + 'The two lexer families execute the lexer MIR on concrete words / queries (no symbolic input there: a finite list, stated in the evidence); invariance under every '
-        'whitespace split point set and every case mask is therefore covered only for the listed spellings. DATE_ALIKE_REGEX.captures evaluated with Python re on concrete text.',
+        'whitespace split point set is covered for the listed queries (lexer_splits: <= 5 / 14 free positions, every search-root word a shell word of its own, since fselect takes the '
+        'rest of a shell word as the root path) and every case mask only for the listed spellings. DATE_ALIKE_REGEX.captures evaluated with Python re on concrete text.',
    technique=TECH),
 }
 REASON_TODO = 'check not built yet in this session (planned: see DESIGN.md §5); not claimed until it exists'
